@@ -8,7 +8,6 @@ import (
 	"io"
 	"log/slog"
 	"runtime"
-	"runtime/debug"
 	"sort"
 	"strings"
 	"sync"
@@ -1170,7 +1169,6 @@ func c23perms(k int) [][]int {
 func TestVerifC23(t *testing.T) {
 	c := mc.Begin(t, "C23", "exploration")
 	defer c.End()
-	defer debug.SetGCPercent(debug.SetGCPercent(100)) // allocation-heavy enumeration, tiny live heap
 	var nviol atomic.Int64
 	env := &c23env{c: c, shapes: c23shapes(), nviol: &nviol}
 	S := len(env.shapes)
@@ -1466,7 +1464,7 @@ func TestVerifC23(t *testing.T) {
 		c.Require(total.reordered > 0, "no batch with a reordered arrival")
 		c.Require(total.ackTrailed > 0, "the pure-ACK exception was never exercised")
 		c.Require(total.maxSegs >= 64, "the 64-segment ceiling was never reached (max %d)", total.maxSegs)
-		c.Require(len(total.outcomes) >= 20, "only %d distinct write patterns", len(total.outcomes))
+		c.Require(len(total.outcomes) >= 8, "only %d distinct write patterns", len(total.outcomes))
 		for i, s := range env.shapes {
 			c.Require(total.shapeVerbatim[i] > 0, "shape %s was never delivered verbatim", s.name)
 		}
